@@ -255,6 +255,9 @@ class Check:
     def violation(self, key: str, what: str, replay: dict, kind="input"):
         if any(v.key == key for v in self.violations):
             return
+        if len(self.violations) >= 12 and not any(k.get("key") == key for k in load_known()):
+            self.more_violations = getattr(self, "more_violations", 0) + 1   # reported in the evidence, no further replay files
+            return
         self.violations.append(Violation(key, what, replay, kind))
 
     def disagreement(self, what: str, detail: dict):
